@@ -2,6 +2,7 @@
 \*   tlc -config MC_MetricsSync_ideal.cfg MC_MetricsSync.tla
 CONSTANTS
   Temps <- T_dc
+  InitReaders = 2
   Filters <- F_all
   AttrSeqs <- AS_perm
   Limit = 100
